@@ -305,6 +305,18 @@ Proof.
     split; [lia|]. unfold same_user. auto 10.
 Qed.
 
+(** with room, [reserve] leaves the state untouched *)
+Lemma reserve_room_same c v u add v' u' :
+  vlen v + add <= vcap v -> vcap v <= usize_max ->
+  reserve c add (v, u) = Ok tt (v', u') -> v' = v /\ u' = u.
+Proof.
+  intros Hr Hu. unfold reserve, bind, getv, of_ovf, of_opt, checked_add. cbn [fst].
+  assert (Hm : vlen v + add <= usize_max) by lia.
+  rewrite (proj2 (N.leb_le _ _) Hm). unfold ret at 1.
+  destruct (N.ltb_spec (vcap v) (vlen v + add)) as [Hlt|_]; [lia|].
+  unfold ret. intros H. injection H as <- <-. auto.
+Qed.
+
 Lemma reserve_fixed c v u add :
   vlen v + add <= usize_max -> vcap v < vlen v + add -> fixed_backend (vbk v) ->
   reserve c add (v, u) = Panic PCapacity (v, u).
@@ -530,7 +542,8 @@ Lemma splice_prep_ok c v u xs s e i j known n :
     store_ok c v2 /\ Held c v2 0 (firstn s xs) /\ Held c v2 (s + n) (skipn e xs) /\
     vbk v2 = vbk v /\ unext u2 = unext u /\ ufuse u2 = None /\
     uevents u2 = (if c_dg c then rev (map EDrop (firstn (j - i) (skipn i xs))) else [])
-                 ++ uevents u.
+                 ++ uevents u /\
+    (N.of_nat new_len <= vcap v -> vcap v2 = vcap v).
 Proof.
   intros Hwf HA Hf new_len Hroom d.
   pose proof (drain_forget_rep _ _ _ _ _ _ _ HA) as HR.
@@ -568,7 +581,7 @@ Proof.
   destruct (moved_state c v1 (firstn s xs) (skipn e xs) (s + n) Hst1) as [Hst2 [Hp2 Ht2]];
     auto; try (unfold new_len in Hc1; lia).
   exists (with_mem (mwrite ((s + n) * szn c) (flat (szn c) (skipn e xs)) (vmem v1)) v1), u2.
-  split; [|split; [|split; [|split; [|split; [|split; [|split; [|split; [|split; [|split]]]]]]]]].
+  split; [|split; [|split; [|split; [|split; [|split; [|split; [|split; [|split; [|split; [|split]]]]]]]]]].
   - unfold splice_prep, d. cbn [dcur ci ce dend dstart dorig].
     unfold of_ovf, of_opt, checked_add.
     rewrite (proj2 (N.leb_le (N.of_nat s + N.of_nat n) usize_max))
@@ -598,6 +611,8 @@ Proof.
   - congruence.
   - exact F1.
   - unfold uevents. rewrite L1, uevents_drops. f_equal. exact He1.
+  - intros Hfit. cbn [with_mem vcap].
+    destruct (reserve_room_same c v u add v1 u1) as [-> _]; [rewrite Hadd; exact Hfit|exact Hus|exact E0|reflexivity].
 Qed.
 
 Theorem splice_drop_spec c v u xs s e i j known ts k :
@@ -614,11 +629,12 @@ Theorem splice_drop_spec c v u xs s e i j known ts k :
     unext u' = unext u /\ ufuse u' = None /\
     uevents u' = repeat ENext (length ts)
                  ++ (if c_dg c then rev (map EDrop (firstn (j - i) (skipn i xs))) else [])
-                 ++ uevents u.
+                 ++ uevents u /\
+    (N.of_nat new_len <= vcap v -> vcap v' = vcap v).
 Proof.
   intros Hwf HA Hf Htoks new_len Hroom d.
   destruct (splice_prep_ok c v u xs s e i j known (length ts) Hwf HA Hf Hroom)
-    as [v2 [u2 [E2 [Hl2 [Hc2 [Hus2 [Hst2 [Hp2 [Ht2 [Hb2 [Hn2 [Hf2 He2]]]]]]]]]]]].
+    as [v2 [u2 [E2 [Hl2 [Hc2 [Hus2 [Hst2 [Hp2 [Ht2 [Hb2 [Hn2 [Hf2 [He2 Hcap2]]]]]]]]]]]]].
   fold new_len in Hc2.
   destruct HA as [Hle Hlen Hcap Hus Hst Hp Hm Ht Htok].
   destruct Hle as [Hsi [Hij [Hje Hel]]].
@@ -646,7 +662,7 @@ Proof.
     apply heldm_mwrite_after; [exact Ht2 | rewrite flat_length; lia | lia]. }
   exists (with_len (N.of_nat s + (0 + N.of_nat (length ts))
                     + (N.of_nat (length xs) - N.of_nat e)) v3), u3.
-  split; [|split; [|split; [|split; [|split]]]].
+  split; [|split; [|split; [|split; [|split; [|split]]]]].
   - unfold splice_drop, d. cbn [dcur ci ce dend dstart dorig].
     rewrite (bind_ok _ _ _ _ _ (unwinding_ok _ _ _ _ _ E2)).
     rewrite bo_of_nat, Nat2N.id.
@@ -666,6 +682,7 @@ Proof.
   - congruence.
   - exact F3.
   - unfold uevents at 1. rewrite L3, uevents_nexts. f_equal. exact He2.
+  - intros Hfit. cbn [with_len vcap v3 with_mem]. apply Hcap2. exact Hfit.
 Qed.
 
 (** a full fixed-capacity vector: a splice whose result does not fit panics and leaves a
